@@ -45,29 +45,17 @@ Definition gtp_check_doe (doe : Z) : bool :=
   && (0 <=? yoe) && (yoe <? 400) && (gt_doe_of_civil yoe m d =? doe)
   && (if doe <? 146037 then y0 <=? 399 else y0 =? 400).
 
-Definition gtp_all_doe : bool :=
-  gtp_forall_range 147 0 (fun i =>
-    gtp_forall_range 1000 0 (fun j =>
-      let doe := i * 1000 + j in (146097 <=? doe) || gtp_check_doe doe)).
-
-Lemma gtp_all_doe_true : gtp_all_doe = true.
-Proof. vm_compute. reflexivity. Qed.
+(* evaluated by the kernel's VM on all 146097 days of an era; the statement keeps the range symbolic
+   (Z.to_nat of a Z numeral) so that nothing but vm_compute ever unfolds it *)
+Definition gtp_doe_cell (doe : Z) : bool := gtp_check_doe doe.
+Lemma gtp_all_doe_true : gtp_forall_range (Z.to_nat 146097) 0 gtp_doe_cell = true.
+Proof. vm_cast_no_check (@eq_refl bool true). Qed.   (* checked once, at Qed, by the kernel's VM *)
 
 Lemma gtp_check_doe_all : forall doe, 0 <= doe < 146097 -> gtp_check_doe doe = true.
 Proof.
   intros doe H.
-  pose proof (gtp_forall_range_spec _ _ _ gtp_all_doe_true (doe / 1000)) as H1.
-  cbv beta in H1.
-  assert (Hi : 0 <= doe / 1000 < 0 + Z.of_nat 147).
-  { split; [apply Z.div_pos; lia | apply Z.div_lt_upper_bound; lia]. }
-  specialize (H1 Hi).
-  pose proof (gtp_forall_range_spec _ _ _ H1 (doe mod 1000)) as H2. cbv beta zeta in H2.
-  assert (Hj : 0 <= doe mod 1000 < 0 + Z.of_nat 1000).
-  { pose proof (Z.mod_pos_bound doe 1000 ltac:(lia)). lia. }
-  specialize (H2 Hj).
-  replace (doe / 1000 * 1000 + doe mod 1000) with doe in H2
-    by (pose proof (Z.div_mod doe 1000 ltac:(lia)); lia).
-  apply orb_true_iff in H2 as [H2|H2]; [lia | exact H2].
+  apply (gtp_forall_range_spec (Z.to_nat 146097) 0 gtp_doe_cell gtp_all_doe_true doe).
+  rewrite Z2Nat.id by lia. lia.
 Qed.
 
 (* civil -> day-of-era -> civil *)
@@ -78,13 +66,11 @@ Definition gtp_check_civil (yoe m d : Z) : bool :=
    (0 <=? doe) && (doe <? 146097)
    && (let '(y1, m1, d1) := gt_civil_of_doe doe in (y1 =? y0) && (m1 =? m) && (d1 =? d))).
 
-Definition gtp_all_civil : bool :=
-  gtp_forall_range 400 0 (fun yoe =>
-    gtp_forall_range 12 1 (fun m =>
-      gtp_forall_range 31 1 (fun d => gtp_check_civil yoe m d))).
-
-Lemma gtp_all_civil_true : gtp_all_civil = true.
-Proof. vm_compute. reflexivity. Qed.
+(* index k = yoe * 372 + (m - 1) * 31 + (d - 1) over 400 * 12 * 31 = 148800 combinations *)
+Definition gtp_civil_cell (k : Z) : bool :=
+  gtp_check_civil (k / 372) ((k mod 372) / 31 + 1) (k mod 31 + 1).
+Lemma gtp_all_civil_true : gtp_forall_range (Z.to_nat 148800) 0 gtp_civil_cell = true.
+Proof. vm_cast_no_check (@eq_refl bool true). Qed.
 
 Lemma gt_days_in_le_31 (m y : Z) : gt_days_in m y <= 31.
 Proof.
@@ -96,9 +82,21 @@ Lemma gtp_check_civil_all : forall yoe m d, 0 <= yoe < 400 -> 1 <= m <= 12 -> 1 
   gtp_check_civil yoe m d = true.
 Proof.
   intros yoe m d Hy Hm Hd.
-  pose proof (gtp_forall_range_spec _ _ _ gtp_all_civil_true yoe ltac:(cbn; lia)) as H1. cbv beta in H1.
-  pose proof (gtp_forall_range_spec _ _ _ H1 m ltac:(cbn; lia)) as H2. cbv beta in H2.
-  exact (gtp_forall_range_spec _ _ _ H2 d ltac:(cbn; lia)).
+  set (k := yoe * 372 + (m - 1) * 31 + (d - 1)).
+  assert (Hk : gtp_civil_cell k = true).
+  { apply (gtp_forall_range_spec (Z.to_nat 148800) 0 gtp_civil_cell gtp_all_civil_true k).
+    rewrite Z2Nat.id by lia. subst k. lia. }
+  unfold gtp_civil_cell in Hk.
+  assert (E1 : k / 372 = yoe).
+  { symmetry. apply (Z.div_unique k 372 yoe ((m - 1) * 31 + (d - 1))); subst k; lia. }
+  assert (E2 : k mod 372 = (m - 1) * 31 + (d - 1)).
+  { symmetry. apply (Z.mod_unique k 372 yoe ((m - 1) * 31 + (d - 1))); subst k; lia. }
+  assert (E3 : (k mod 372) / 31 = m - 1).
+  { rewrite E2. symmetry. apply (Z.div_unique _ 31 (m - 1) (d - 1)); lia. }
+  assert (E4 : k mod 31 = d - 1).
+  { symmetry. apply (Z.mod_unique k 31 (yoe * 12 + (m - 1)) (d - 1)); subst k; lia. }
+  rewrite E1, E3, E4 in Hk.
+  replace (m - 1 + 1) with m in Hk by lia. replace (d - 1 + 1) with d in Hk by lia. exact Hk.
 Qed.
 
 (* ---------- inverse laws for every integer ---------- *)
